@@ -406,9 +406,13 @@ func (w *world) main() {
 		w.closeOne("conn", func(ctx context.Context) error { return w.Conn.Close(ctx) })
 	}
 	w.dialsAtClose = w.B.Dials
-	vsched.Quiesce()
-	if l := w.B.Live(); l != nil && l.Connect != nil && l.Disconnect == nil {
-		w.liveAfterClose = l.Idx + 1
+	if w.p.Failure == "cutclose" {
+		// (only here: letting the client settle before the calls on the closed objects would hide a stream that is
+		// closed some time after Conn.Close returned)
+		vsched.Quiesce()
+		if l := w.B.Live(); l != nil && l.Connect != nil && l.Disconnect == nil {
+			w.liveAfterClose = l.Idx + 1
+		}
 	}
 	w.Phase = "post"
 	// every API once more on the closed objects
